@@ -40,7 +40,10 @@ type VarDef struct {
 
 // Validate a variable definition.
 func (v *VarDef) Validate(root *Root) (errs []error) {
-	if !IsInputType(v.Type) {
+	switch {
+	case v.Type == nil:
+		errs = append(errs, fmt.Errorf("%w: type missing for $%s at %d:%d", ErrValidation, v.Name, v.line, v.col))
+	case !IsInputType(v.Type):
 		errs = append(errs, fmt.Errorf("%w: %s is not a valid input type for $%s at %d:%d",
 			ErrValidation, v.Type.Name(), v.Name, v.line, v.col))
 	}
